@@ -445,4 +445,34 @@ theorem C05_unwind_counterexample_marker_in_finally :
     let d := interruptSteps (wrap (mid B false) B.tag) (fullSave Cfg.fixed empty A false) 6 false [.write .sentinel B.tag]
     (d .sentinel).isSome = true ∧ d .nodes = some (.ok 2) ∧ d .elements = some (.ok 1) := by decide
 
+/-! ### a save through a staging directory
+
+Seen from the cache directory such a save is: remove the sentinel and the stale files, then one atomic write of a COMPLETE
+file per rename into place, in the order of the renames (this is the plan the harness traces for it: a rename into the
+directory is a write of its target; what happens inside the staging directory changes no cache file). -/
+
+def stagedPlan (x : Obj) (order : List File) : List Step :=
+  [.remove .sentinel, .remove .nodal, .remove .elemental, .remove .constraints, .remove .settings] ++
+  order.map (fun f => .write f x.tag)
+
+/-- renamed in alphabetical order of the file NAMES (`femio_npy_saved.npy` sorts before `femio_settings.npz`) the sentinel is
+in place before the settings: the plan does not end with the sentinel, and a death between these two renames (after 9 of
+the 10 effects) leaves the sentinel and every data file of the new object but NOT its settings — a partial cache that
+every later read trusts -/
+theorem C05_staged_sorted_counterexample :
+    let plan := stagedPlan B [.elements, .nodal, .nodes, .sentinel, .settings]
+    let d := crashSteps plan (fullSave Cfg.fixed empty A false) 9 false
+    plan.getLast? ≠ some (.write .sentinel B.tag) ∧
+    (d .sentinel).isSome = true ∧ d .nodes = some (.ok 2) ∧ d .settings = none ∧
+    expected B false .settings = some (.ok 2) := by decide
+
+/-- with the sentinel renamed LAST the same staged save is a plan `wrap mid` accepted by `GoodMid`: every `*_plan` /
+`*_unwind` theorem applies to it -/
+theorem C05_staged_marker_last_good :
+    stagedPlan B [.elements, .nodal, .nodes, .settings, .sentinel] =
+      wrap [.remove .nodal, .remove .elemental, .remove .constraints, .remove .settings,
+            .write .elements 2, .write .nodal 2, .write .nodes 2, .write .settings 2] B.tag ∧
+    GoodMid [.remove .nodal, .remove .elemental, .remove .constraints, .remove .settings,
+             .write .elements 2, .write .nodal 2, .write .nodes 2, .write .settings 2] B false = true := by decide
+
 end Femio.C05
